@@ -167,10 +167,13 @@ theorem Ext.clean {s s' : St} (h : Ext s s') (hc : CleanRows s.out) : CleanRows 
   obtain ⟨⟨ext, he, hce⟩, -⟩ := h
   rw [he]; exact hc.append hce
 
-theorem resetSlots_same (s : St) : Same s (resetSlots s) := ⟨rfl, rfl⟩
+theorem freezeRows_length (s : St) : (freezeRows s).length = s.rows.length := by
+  simp [freezeRows]
+
+theorem resetSlots_same (s : St) : Same s (resetSlots s) := ⟨rfl, freezeRows_length s⟩
 
 theorem saveLoad_same (s : St) : Same s (saveLoad s) := by
-  simp [Same, saveLoad]
+  simp [Same, saveLoad, freezeRows_length]
 
 theorem iterations_ext (fuel : Nat) (r : Recipe) (k : Nat) : ∀ (c : Ctx) (cont : Bool) (s : St) (c' : Ctx) (s' : St),
     iterations fuel r k c cont s = .ok (c', s') → Ext s s' := by
